@@ -59,6 +59,7 @@ def run(rep: Report, tier: str) -> None:
 	rule_c(rep, idx)
 	rule_e(rep, idx)
 	rule_f(rep, idx)
+	rule_chain_fold(rep, idx)
 
 
 def rule_a(rep: Report, idx: SourceIndex) -> None:
@@ -420,3 +421,26 @@ def rule_f(rep: Report, idx: SourceIndex) -> None:
 					bad = [e for e in complete if e in repeatable]
 					key = f'{rel}:{q}:{unparse(node)[:60]}:{pat}'
 					r.check(not bad, key, (rel, node.lineno), f'`{unparse(node)[:90]}` matches the entry path against {pat!r}; the element(s) {bad} can repeat among siblings and are then written `{bad[0] if bad else ""}[i]`, so the constant only matches when there is exactly one (e.g. a class with a single method): the decision silently flips for larger inputs', unparse(node)[:120])
+
+
+def rule_chain_fold(rep: Report, idx: SourceIndex) -> None:
+	"""a flattened same-level chain `a * b / c` is typed step by step; each step must look up the dunder of ITS operator"""
+	from vlib import fold
+	r = rep.rule('C03/chain-typed-per-operator', 'ProceduralResolver.each_binary_operator types a flattened operator chain left to right, and the operator handed to try_operation varies with the step (the i-th operator for the i-th step)', floor=2)
+	refl = idx.mod('rogw/tranp/semantics/reflections.py')
+	f = refl.cls('ProceduralResolver').method('each_binary_operator')
+	if f is None:
+		raise AnalysisError('ProceduralResolver.each_binary_operator vanished')
+	ops = [c_ for c_ in ast.walk(f.node) if isinstance(c_, ast.Call) and isinstance(c_.func, ast.Attribute) and c_.func.attr == 'try_operation' and c_.args]
+	if not ops:
+		r.skip('operator-per-step', f.where, 'each_binary_operator no longer calls try_operation(operator, operand)')
+	for c_ in ops:
+		lp = fold.enclosing_loop(f.node, c_)
+		if lp is None:
+			r.skip(f'operator-per-step:{unparse(c_)[:50]}', (refl.relpath, c_.lineno), 'try_operation is not called inside a loop over the chain')
+			continue
+		r.check(fold.is_variant(lp, c_.args[0]), f'operator-per-step:{unparse(c_)[:50]}', (refl.relpath, c_.lineno), f'`{unparse(c_)}` uses the operator `{unparse(c_.args[0])}`, which does not change from one step of the chain to the next: every step of `a * b / c` is then typed with the first operator\'s dunder (int.__mul__ -> int) although the second step is a true division (float)', unparse(c_))
+	params = f.params()
+	roots = set(params[1:]) | {'node_of_elements'}
+	back = fold.backward_consumers(f.node, roots)
+	r.check(not back, 'front-to-back', f.where, f'the chain is consumed from the end ({[unparse(b) for b in back][:2]}): typing must follow Python\'s left-to-right evaluation of a same-level chain')
